@@ -10,6 +10,8 @@ import Rl.Spec.Doc
 import Rl.Lemmas.Keymap
 import Rl.Lemmas.KeymapVi
 import Rl.Lemmas.ExecRefines
+import Rl.Lemmas.ExecRefines2
+import Rl.Props.C07
 import Rl.Lemmas.EditorFrame
 import Rl.Lemmas.LineBuffer
 import Rl.Lemmas.LineBufferSafe
@@ -661,20 +663,19 @@ theorem C01_execute_refines_move (S : Segmenter) (U : UData) (cfg : EdCfg) (hS :
     wp (execute S U cfg (.move m)) (Refined S U (.move m) mode s) (fun _ _ => False) s :=
   execute_move_refines S U cfg hS mode m s hwf hbe
 
-/-- **Kills** (incl. the character deletes C-d, C-h, `x`, `X`): every movement (`^` included since the repair of D46): exactly
-    the documented span is removed and the cursor is at its start; with nothing to kill the text is
-    unchanged, and so is the cursor for the character / word / line-end / line-start / whole-line /
-    buffer kills and in an empty buffer (`KillCaveat`: only for `dj` `dk` and char-search kills with
-    nothing to kill is the cursor claim conditional). -/
+/-- **Kills** (incl. the character deletes C-d, C-h, `x`, `X`), every movement: exactly the
+    documented span is removed and the cursor is at its start; with nothing to kill, text and cursor
+    are unchanged (`kill_nothing_keeps_cursor`: for every movement a kill that leaves the text alone
+    leaves the cursor alone — the former `KillCaveat` is gone). -/
 theorem C01_execute_refines_kill (S : Segmenter) (U : UData) (cfg : EdCfg) (hS : S.Stable) (hnl : S.NlAlone)
     (hnp : cfg.hinterPanicAt = none) (mode : Mode) (m : Movement) (s : Ed) (hwf : WF s.line) (hr : RingOK s.ring) :
-    wp (execute S U cfg (.kill m)) (RefinedKill S U (.kill m) mode m s) (fun _ _ => False) s :=
+    wp (execute S U cfg (.kill m)) (Refined S U (.kill m) mode s) (fun _ _ => False) s :=
   execute_kill_refines S U cfg hS hnl hnp mode m s hwf hr
 
 /-- **Change** (vi `c`+motion, `s`, `S`, `C`): the same removal. -/
 theorem C01_execute_refines_change (S : Segmenter) (U : UData) (cfg : EdCfg) (hS : S.Stable) (hnl : S.NlAlone)
     (hnp : cfg.hinterPanicAt = none) (mode : Mode) (m : Movement) (s : Ed) (hwf : WF s.line) (hr : RingOK s.ring) :
-    wp (execute S U cfg (.replace m none)) (RefinedKill S U (.change m) mode m s) (fun _ _ => False) s :=
+    wp (execute S U cfg (.replace m none)) (Refined S U (.change m) mode s) (fun _ _ => False) s :=
   execute_change_refines S U cfg hS hnl hnp mode m s hwf hr
 
 /-- **Yank over a movement** (vi `y`+motion): the line is not touched. -/
@@ -691,13 +692,24 @@ theorem C01_execute_refines_insert (S : Segmenter) (U : UData) (cfg : EdCfg) (hn
     wp (execute S U cfg (.selfInsert n c)) (Refined S U (.insert n c) mode s) (fun _ _ => False) s :=
   execute_insert_refines S U cfg hnp mode n c s hwf hg
 
-/-- **Summary over `Act`** (`Covered`: insert, move, kill, change, yank, the vi mode switches, no-op):
-    executing `a.toCmd` returns with status `proceed` and the line `Act.apply` documents. -/
+/-- **vi `r`** with a count: in the situations `Act.apply` judges (`JudgedReplace`: `n ≥ 1` clusters
+    to replace, `n ≤ 65535`, and one cluster back from the end of the inserted copies is the start of
+    the last copy) the `n` clusters are replaced by `n` copies and the cursor is on the last one. -/
+theorem C01_execute_refines_replace_char (S : Segmenter) (U : UData) (cfg : EdCfg) (hS : S.Stable)
+    (hnp : cfg.hinterPanicAt = none) (mode : Mode) (n : Nat) (c : Char) (s : Ed) (hwf : WF s.line)
+    (hg : s.line.canGrow = true) (hj : JudgedReplace S s.line.buf s.line.pos n c) :
+    wp (execute S U cfg (.replaceChar n c)) (Refined S U (.replaceChar n c) mode s) (fun _ _ => False) s :=
+  execute_replaceChar_refines S U cfg hS hnp mode n c s hwf hg hj
+
+/-- **Summary over `Act`** (`CoveredAt`: insert, move, kill, change, yank, vi `r` where judged, the vi
+    mode switches, no-op): executing `a.toCmd` returns with status `proceed` and the line (text and
+    cursor, unconditionally) `Act.apply` documents. -/
 theorem C01_execute_refines (S : Segmenter) (U : UData) (cfg : EdCfg) (hS : S.Stable) (hnl : S.NlAlone)
-    (hnp : cfg.hinterPanicAt = none) (mode : Mode) (a : Act) (c : Cmd) (hc : a.toCmd = some c) (hcov : Covered a)
-    (s : Ed) (hwf : WF s.line) (hg : s.line.canGrow = true) (hr : RingOK s.ring) :
+    (hnp : cfg.hinterPanicAt = none) (mode : Mode) (a : Act) (c : Cmd) (hc : a.toCmd = some c)
+    (s : Ed) (hcov : CoveredAt S a s.line.buf s.line.pos) (hwf : WF s.line) (hg : s.line.canGrow = true)
+    (hr : RingOK s.ring) :
     wp (execute S U cfg c) (RefinedAct S U a mode s) (fun _ _ => False) s :=
-  execute_refines S U cfg hS hnl hnp mode a c hc hcov s hwf hg hr
+  execute_refines_all S U cfg hS hnl hnp mode a c hc s hcov hwf hg hr
 
 /-! ### C01_key_to_effect — from the decoded key to the effect on (text, cursor) -/
 
@@ -708,7 +720,7 @@ theorem C01_key_to_effect_emacs (S : Segmenter) (U : UData) (cfg : EdCfg) (hvi :
     (fuel : Nat) (s : Ed) (hwf : WF s.line) (hg : s.line.canGrow = true) (hrg : RingOK s.ring)
     (e : KeyEvent × DocAction) (he : e ∈ table .emacs) (a : Act) (c : Cmd)
     (ha : a = e.2.resolve (countOf s.inp.numArgs).1 (countOf s.inp.numArgs).2 s.line.buf.isEmpty false)
-    (hc : a.toCmd = some c) (hcov : Covered a)
+    (hc : a.toCmd = some c) (hcov : CoveredAt S a s.line.buf s.line.pos)
     (hr : ¬ (e.1 = key .right ∧ s.hint.isSome = true ∧ s.line.pos = blen s.line.buf)) :
     wp (do let cmd ← emacs S U cfg fuel e.1; execute S U cfg cmd) (RefinedAct S U a .emacs s) (fun _ _ => False) s := by
   subst ha
@@ -718,7 +730,7 @@ theorem C01_key_to_effect_emacs (S : Segmenter) (U : UData) (cfg : EdCfg) (hvi :
     · exact C01_binding_table_emacs S U cfg hvi hb fuel s e he c hc hr
     · exact C01_binding_table_emacs_common S U cfg hvi hb fuel s e he c hc hr
   have hk := (Ed.core_eq ((keeps_emacs S U cfg fuel e.1).ok h1)).2.2.2.1
-  exact key_to_effect S U cfg hS hnl hnp .emacs _ c hc hcov s s1 hwf hg hrg h1 h2 hk
+  exact key_to_effect_all S U cfg hS hnl hnp .emacs _ c hc s s1 hcov hwf hg hrg h1 h2 hk
 
 /-- vi command mode -/
 theorem C01_key_to_effect_vi_command (S : Segmenter) (U : UData) (cfg : EdCfg)
@@ -726,12 +738,12 @@ theorem C01_key_to_effect_vi_command (S : Segmenter) (U : UData) (cfg : EdCfg)
     (fuel : Nat) (s : Ed) (h0 : 0 ≤ s.inp.numArgs) (hwf : WF s.line) (hg : s.line.canGrow = true) (hrg : RingOK s.ring)
     (e : KeyEvent × DocAction) (he : e ∈ table .viCommand) (a : Act) (c : Cmd)
     (ha : a = e.2.resolve (countOf s.inp.numArgs).1 true s.line.buf.isEmpty true)
-    (hc : a.toCmd = some c) (hcov : Covered a) :
+    (hc : a.toCmd = some c) (hcov : CoveredAt S a s.line.buf s.line.pos) :
     wp (do let cmd ← viCommand S U cfg fuel e.1; execute S U cfg cmd) (RefinedAct S U a .viCommand s) (fun _ _ => False) s := by
   subst ha
   obtain ⟨s1, h1, h2⟩ := C01_binding_table_vi_command S U cfg hb fuel s h0 e he c hc
   have hk := (Ed.coreNC_eq ((keeps_viCommand S U cfg fuel e.1).ok h1)).2.2.1
-  exact key_to_effect S U cfg hS hnl hnp .viCommand _ c hc hcov s s1 hwf hg hrg h1 h2 hk
+  exact key_to_effect_all S U cfg hS hnl hnp .viCommand _ c hc s s1 hcov hwf hg hrg h1 h2 hk
 
 /-- vi insert mode -/
 theorem C01_key_to_effect_vi_insert (S : Segmenter) (U : UData) (cfg : EdCfg)
@@ -739,13 +751,85 @@ theorem C01_key_to_effect_vi_insert (S : Segmenter) (U : UData) (cfg : EdCfg)
     (fuel : Nat) (s : Ed) (hwf : WF s.line) (hg : s.line.canGrow = true) (hrg : RingOK s.ring)
     (e : KeyEvent × DocAction) (he : e ∈ table .viInsert) (a : Act) (c : Cmd)
     (ha : a = e.2.resolve 1 true s.line.buf.isEmpty true)
-    (hc : a.toCmd = some c) (hcov : Covered a)
+    (hc : a.toCmd = some c) (hcov : CoveredAt S a s.line.buf s.line.pos)
     (hr : ¬ (e.1 = key .right ∧ s.hint.isSome = true ∧ s.line.pos = blen s.line.buf)) :
     wp (do let cmd ← viInsert S U cfg fuel e.1; execute S U cfg cmd) (RefinedAct S U a .viInsert s) (fun _ _ => False) s := by
   subst ha
   obtain ⟨s1, h1, h2⟩ := C01_binding_table_vi_insert S U cfg hb fuel s e he c hc hr
   have hk := (Ed.coreNC_eq ((keeps_viInsert S U cfg fuel e.1).ok h1)).2.2.1
-  exact key_to_effect S U cfg hS hnl hnp .viInsert _ c hc hcov s s1 hwf hg hrg h1 h2 hk
+  exact key_to_effect_all S U cfg hS hnl hnp .viInsert _ c hc s s1 hcov hwf hg hrg h1 h2 hk
+
+/-! ### C01_history_keys — the history keys denote the commands whose effect C07 proves -/
+
+/-- the history keys of emacs mode and the commands they denote -/
+def C01_histKeysEmacs : List (KeyEvent × Cmd) :=
+  [(ctrl 'P', .previousHistory), (ctrl 'N', .nextHistory), (altk '<', .beginningOfHistory), (altk '>', .endOfHistory),
+   (key .up, .lineUpOrPreviousHistory 1), (key .down, .lineDownOrNextHistory 1)]
+
+set_option maxHeartbeats 800000 in
+/-- emacs mode: the history keys denote the history commands (the README tables list them as
+    judged by C07), the state untouched -/
+theorem C01_history_keys_denote (S : Segmenter) (U : UData) (cfg : EdCfg) (hvi : cfg.vi = false) (hb : cfg.binds = [])
+    (fuel : Nat) (s : Ed) (e : KeyEvent × Cmd) (he : e ∈ C01_histKeysEmacs) :
+    ∃ s', emacs S U cfg fuel e.1 s = .ok (e.2, s') ∧ s'.core = s.core := by
+  have hna := emacsNumArgs_eq s
+  generalize countOf s.inp.numArgs = np at hna
+  obtain ⟨n, p⟩ := np
+  have hk := fun k => keeps_emacs S U cfg fuel k
+  obtain ⟨k, c⟩ := e
+  simp [C01_histKeysEmacs] at he
+  have key : ∃ s', emacs S U cfg fuel k s = .ok (c, s') := by
+    rcases he with he | he | he | he | he | he
+    all_goals (
+      obtain ⟨rfl, rfl⟩ := he
+      cases p <;>
+      simp [emacs, common, EM.bind_apply, EM.pure_apply, hna, customBinding, hb, termBinding, ctrl, altk, key,
+        Mods.alt, isDigit, hvi])
+  obtain ⟨s', h1⟩ := key
+  exact ⟨s', h1, (hk k).ok h1⟩
+
+theorem C01_navOf_core {s1 s : Ed} (h : s1.core = s.core) : navOf s1 = navOf s := by
+  obtain ⟨h1, h2, _, _, h5, _⟩ := Ed.core_eq h
+  simp [navOf, h1, h2, h5]
+
+theorem C01_navOK_core {cfg : EdCfg} {s1 s : Ed} (h : s1.core = s.core) (hn : NavOK cfg s) : NavOK cfg s1 := by
+  obtain ⟨h1, h2, _, _, h5, _⟩ := Ed.core_eq h
+  exact ⟨h1 ▸ hn.lineGrow, h2 ▸ hn.savedGrow, h1 ▸ hn.linePos, h2 ▸ hn.savedPos, h5 ▸ hn.idx⟩
+
+/-- **C-p / C-n / M-< / M->** from the key to the effect C07 proves: previous / next / first / last
+    entry of the store (`navPrevS` …), the in-progress line saved and restored as C07 states -/
+theorem C01_history_keys (S : Segmenter) (U : UData) (cfg : EdCfg) (hvi : cfg.vi = false) (hb : cfg.binds = [])
+    (hnp : cfg.hinterPanicAt = none) (hst : StoreOK (storeOf cfg)) (fuel : Nat) (s : Ed) (hnav : NavOK cfg s) :
+    (∃ s', (do let cmd ← emacs S U cfg fuel (ctrl 'P'); execute S U cfg cmd) s = .ok (.proceed, s') ∧
+        navOf s' = navPrevS (storeOf cfg) (navOf s) ∧ NavOK cfg s') ∧
+    (∃ s', (do let cmd ← emacs S U cfg fuel (ctrl 'N'); execute S U cfg cmd) s = .ok (.proceed, s') ∧
+        navOf s' = navNextS (storeOf cfg) (navOf s) ∧ NavOK cfg s') ∧
+    (∃ s', (do let cmd ← emacs S U cfg fuel (altk '<'); execute S U cfg cmd) s = .ok (.proceed, s') ∧
+        navOf s' = navFirstS (storeOf cfg) (navOf s) ∧ NavOK cfg s') ∧
+    (∃ s', (do let cmd ← emacs S U cfg fuel (altk '>'); execute S U cfg cmd) s = .ok (.proceed, s') ∧
+        navOf s' = navLastS (storeOf cfg) (navOf s) ∧ NavOK cfg s') := by
+  have km := fun e he => C01_history_keys_denote S U cfg hvi hb fuel s e he
+  refine ⟨?_, ?_, ?_, ?_⟩
+  · obtain ⟨s1, h1, hc⟩ := km (ctrl 'P', .previousHistory) (by simp [C01_histKeysEmacs])
+    obtain ⟨s', h2, h3, h4⟩ := C07_prev_refines_store S U cfg hnp hst s1 (C01_navOK_core hc hnav)
+    refine ⟨s', ?_, by rw [h3, C01_navOf_core hc], h4⟩
+    have hx : execute S U cfg .previousHistory = (do editHistoryNext S U cfg true; pure .proceed) := rfl
+    simp only [EM.bind_apply, h1, hx, h2]; rfl
+  · obtain ⟨s1, h1, hc⟩ := km (ctrl 'N', .nextHistory) (by simp [C01_histKeysEmacs])
+    obtain ⟨s', h2, h3, h4⟩ := C07_next_refines_store S U cfg hnp hst s1 (C01_navOK_core hc hnav)
+    refine ⟨s', ?_, by rw [h3, C01_navOf_core hc], h4⟩
+    have hx : execute S U cfg .nextHistory = (do editHistoryNext S U cfg false; pure .proceed) := rfl
+    simp only [EM.bind_apply, h1, hx, h2]; rfl
+  · obtain ⟨s1, h1, hc⟩ := km (altk '<', .beginningOfHistory) (by simp [C01_histKeysEmacs])
+    obtain ⟨s', h2, h3, h4⟩ := C07_first_refines_store S U cfg hnp hst s1 (C01_navOK_core hc hnav)
+    refine ⟨s', ?_, by rw [h3, C01_navOf_core hc], h4⟩
+    have hx : execute S U cfg .beginningOfHistory = (do editHistory S U cfg true; pure .proceed) := rfl
+    simp only [EM.bind_apply, h1, hx, h2]; rfl
+  · obtain ⟨s1, h1, hc⟩ := km (altk '>', .endOfHistory) (by simp [C01_histKeysEmacs])
+    obtain ⟨s', h2, h3, h4⟩ := C07_last_refines_store S U cfg hnp s1 (C01_navOK_core hc hnav)
+    refine ⟨s', ?_, by rw [h3, C01_navOf_core hc], h4⟩
+    have hx : execute S U cfg .endOfHistory = (do editHistory S U cfg false; pure .proceed) := rfl
+    simp only [EM.bind_apply, h1, hx, h2]; rfl
 
 /-! ### non-vacuity -/
 
@@ -761,11 +845,10 @@ example : ((lookup (table .viCommand) (plain 'x')).map (fun a => (a.resolve 3 tr
   decide
 
 /-- the refinement theorems are not vacuous: `M-DEL` on `ab cd|` is documented to leave `ab |`, `M-f`
-    from the start goes to 2; the action is covered and outside the cursor caveat (charSeg is stable
+    from the start goes to 2; the action is covered (charSeg is stable
     and keeps the line break alone: `charSeg_stable`, `charSeg_nlAlone`) -/
 example : ((Act.kill (.backwardWord 1 .emacs)).apply charSeg C04_exU .emacs "ab cd".toList 5).text = some "ab ".toList
     ∧ ((Act.kill (.backwardWord 1 .emacs)).apply charSeg C04_exU .emacs "ab cd".toList 5).pos = some 3
     ∧ ((Act.move (.forwardWord 1 .afterEnd .emacs)).apply charSeg C04_exU .emacs "ab cd".toList 0).pos = some 2
-    ∧ Covered (Act.kill (.backwardWord 1 .emacs)) ∧ ¬ KillCaveat charSeg C04_exU "ab cd".toList 5 (.backwardWord 1 .emacs) := by
-  refine ⟨by decide, by decide, by decide, by simp [Covered], ?_⟩
-  intro h; exact h.2.1 trivial
+    ∧ Covered (Act.kill (.backwardWord 1 .emacs)) := by
+  exact ⟨by decide, by decide, by decide, by simp [Covered]⟩
